@@ -54,3 +54,33 @@ fn c16_read() {
         kani::cover!(r > 0 && (r as usize) < len, "C16.cover_partial_read");
     }
 }
+
+/// thorough tier: the same obligations with a kernel script of up to six answers
+#[kani::proof]
+#[kani::unwind(8)]
+#[kani::stub(crate::syscall::is_socket, is_socket_stub)]
+#[kani::stub(crate::syscall::unix::set_non_blocking_flag, set_flag_stub)]
+#[kani::stub(crate::syscall::is_non_blocking, is_non_blocking_stub)]
+#[kani::stub(crate::common::now, now_stub)]
+#[kani::stub(crate::syscall::recv_time_limit, limit_stub)]
+#[kani::stub(crate::net::EventLoops::wait_read_event, wait_stub)]
+fn c16_read_long() {
+    let nb = begin(6);
+    let len: usize = kani::any();
+    kani::assume(len <= MAXLEN);
+    unsafe { LEN = len; }
+    let nio: NioReadSyscall<Kernel> = NioReadSyscall::default();
+    let r = nio.read(None, 3, unsafe { BUF.as_mut_ptr() }.cast(), len);
+    check_common(r, nb, len);
+    unsafe {
+        let mut p = 0;
+        while p < MAXLEN {
+            if p < MOVED { kani::assert(BUF[p] == sb(p), "C16.stream_bytes_in_order_in_caller_buffer"); }
+            else { kani::assert(BUF[p] == EE, "C16.nothing_written_beyond_the_bytes_moved"); }
+            p += 1;
+        }
+        kani::cover!(r == 3 && CALLS >= 3, "C16.cover_full_read_after_retries");
+        kani::cover!(r == -1 && WAITS > 0, "C16.cover_failure_after_waiting");
+        kani::cover!(r > 0 && (r as usize) < len, "C16.cover_partial_read");
+    }
+}
